@@ -88,7 +88,8 @@ PROFILES = {
                 flavors=['raw'], nv=(1, 5), steps=(15, 60)),
     'C17': dict(weights=_w(reject=18, apply=8, add_expr=3, load=4, dump=3, gc=3,
                            swap=2, reorder=1, declare=2, drop=5, arm=0,
-                           configure=0),
+                           configure=0, ite=2, quant=2, let=3, cube=1, find_or_add=2, fop=2),
+                alloc_faults=True,
                 flavors=['raw', 'autoref'], nv=(1, 6), steps=(20, 100),
                 m1_rate=0.2, disk_faults=0.9, dyn_rate=0.35, spare_rate=0.5,
                 reject_kinds=ops_reject.KINDS + ['load_clash', 'load_clash']),
@@ -188,6 +189,7 @@ def _make_cfg(prop, seed, tier='quick', idx=0):
         reject_kinds=P.get('reject_kinds'), probe_second=P.get('probe_second'),
         copy_copy=bool(P.get('copy_copy')) and r.random() < P['copy_copy'],
         copy_memo_run=bool(P.get('copy_memo_run')) and r.random() < P['copy_memo_run'],
+        alloc_rate=(r.choice([0.0, 0.1, 0.25]) if P.get('alloc_faults') else 0.0),
         sift_tiny=bool(P.get('sift_tiny')), doc_cases=doc_cases,
         line_mode=bool(P.get('line_mode')) and r.random() < P['line_mode'].get(tier, 0.0),
         ctor_perm=(r.randrange(1, 1 << 30) if r.random() < 0.15 else None),
